@@ -151,3 +151,10 @@ package html
 //@   ensures[T,C02] @shifted: result0 != ErrorToken ==> l.r.start == l.r.pos
 //@   loop * candidate[T] forall(k, old(l.r.pos), l.r.pos, isHTMLWS(l.r.buf[k]))
 //@   loop * candidate[T] lowerEdit(l)
+
+//@ func Lexer.Err
+//@   requires[S] l != nil && l.r != nil && bufInv(l.r)
+//@ func NewLexer
+//@   ensures[S]  result != nil && result.r == r && !result.inTag && result.rawTag == 0 && len(result.tmplBegin) == 0 && len(result.tmplEnd) == 0
+//@ func NewTemplateLexer
+//@   ensures[S]  result != nil && result.r == r && !result.inTag && result.rawTag == 0
